@@ -282,7 +282,7 @@ def st_cases():
     @st.composite
     def build(draw):
         atoms = draw(atomtab.st_tables(max_models=1, max_chains=3, max_residues=4, altlocs=False,
-                                       realistic_nucleotides=draw(st.booleans())))
+                                       realistic_nucleotides=draw(st.booleans()), modified=True))
         # re-serial and link residues
         res_keys = []
         for a in atoms:
